@@ -179,6 +179,9 @@ CXX = ["g++", "-std=c++17", "-O1", "-g", "-fno-access-control", "-Wno-invalid-of
 
 def build_client(name, extra_flags=(), tag="", tap=False):
     """returns (path or None, compiler output)"""
+    if extra_flags and not tag:
+        # one cache entry per flag set (e.g. a sanitizer build of the same client next to the plain one)
+        tag = "-f" + hashlib.sha256(" ".join(extra_flags).encode()).hexdigest()[:8]
     if tap:
         extra_flags = tuple(extra_flags) + ("-fsanitize=thread",)
         tag = tag + "-tap"
